@@ -183,7 +183,7 @@ let presorted_line ctor opws impl =
     | None -> ("FAULT", false)
     | Some (_, rs) ->
       (String.concat "," (List.map2 (fun o ((r, sz), rsz) ->
-           fmt_out o r ^ "/" ^ soi (int_of_nat sz) ^ "/" ^ (if hash then "-" else soi (int_of_nat rsz))) ops rs),
+           fmt_out o r ^ "/" ^ soi (int_of_nat sz) ^ "/" ^ soi (int_of_nat rsz)) ops rs),
        c12_ps_ok l0 ops (List.map (fun ((r, sz), _) -> (r, sz)) rs))) in
   let oi = (try
       let toks = csv impl in
